@@ -19,9 +19,11 @@ import (
 	"encoding/json"
 	"fmt"
 	"math/big"
+	"math/rand"
 	"strings"
 
 	"github.com/zclconf/go-cty/cty"
+	"github.com/zclconf/go-cty/cty/convert"
 	ctyjson "github.com/zclconf/go-cty/cty/json"
 )
 
@@ -330,4 +332,108 @@ func docOKUGo(b []byte) bool {
 		return true
 	}
 	return val()
+}
+
+// c15ConvTarget: a type that v's type does NOT conform to but can often be converted to
+// (primitives to string, tuples of primitives to lists, objects of primitives to maps).
+func c15ConvTarget(r *rand.Rand, ty cty.Type) cty.Type {
+	allPrim := func(ts []cty.Type) bool {
+		for _, t := range ts {
+			if !t.IsPrimitiveType() {
+				return false
+			}
+		}
+		return len(ts) > 0
+	}
+	switch {
+	case ty == cty.Number || ty == cty.Bool:
+		if r.Intn(4) == 0 {
+			return []cty.Type{cty.Number, cty.Bool}[r.Intn(2)]
+		}
+		return cty.String
+	case ty == cty.String:
+		return []cty.Type{cty.String, cty.Number, cty.Bool}[r.Intn(3)]
+	case ty.IsListType():
+		if r.Intn(3) == 0 {
+			return cty.Set(c15ConvTarget(r, ty.ElementType()))
+		}
+		return cty.List(c15ConvTarget(r, ty.ElementType()))
+	case ty.IsSetType():
+		if r.Intn(3) == 0 {
+			return cty.List(c15ConvTarget(r, ty.ElementType()))
+		}
+		return cty.Set(c15ConvTarget(r, ty.ElementType()))
+	case ty.IsMapType():
+		return cty.Map(c15ConvTarget(r, ty.ElementType()))
+	case ty.IsTupleType():
+		es := ty.TupleElementTypes()
+		if allPrim(es) && r.Intn(2) == 0 {
+			return cty.List(cty.String)
+		}
+		n := make([]cty.Type, len(es))
+		for i := range es {
+			n[i] = c15ConvTarget(r, es[i])
+		}
+		return cty.Tuple(n)
+	case ty.IsObjectType():
+		atys := ty.AttributeTypes()
+		ks := sortedKeys(atys)
+		es := make([]cty.Type, 0, len(ks))
+		for _, k := range ks {
+			es = append(es, atys[k])
+		}
+		if allPrim(es) && r.Intn(2) == 0 {
+			return cty.Map(cty.String)
+		}
+		n := map[string]cty.Type{}
+		for _, k := range ks {
+			n[k] = c15ConvTarget(r, atys[k])
+		}
+		return cty.Object(n)
+	}
+	return ty
+}
+
+// runC15Conv: value.go's Marshal on a value that does NOT conform to the constraint: it must be
+// exactly Marshal of convert.Convert(v, t) (same bytes), or an error when the conversion fails.
+// (The conversion itself is C08's; the model's marshalTop is compared on the converted value.)
+func runC15Conv(ctx *Ctx) {
+	r := ctx.R
+	n := ctx.N(200, 4000)
+	for i := 0; i < n; i++ {
+		v := c15Val(r, genTy(r, 2, TyOpts{}), 2, c15Opts{Null: true})
+		t := c15ConvTarget(r, v.Type())
+		if len(v.Type().TestConformance(t)) == 0 {
+			ctx.Tag("conv:conforming")
+			continue
+		}
+		in := encVal(v) + " " + encTy(t)
+		var b1 []byte
+		var e1 error
+		p1, _ := try(func() { b1, e1 = ctyjson.Marshal(v, t) })
+		var c cty.Value
+		var ec error
+		pc, _ := try(func() { c, ec = convert.Convert(v, t) })
+		ctx.Eval("conv "+in, valDepth(v) >= 2 || hasFraction(v))
+		fail := func(sig, out string) {
+			ctx.Fail(Failure{Site: "marshal-converts", Sig: sig, What: "Marshal of a non-conforming value is not Marshal of convert.Convert(value, constraint)", Input: in, GoLit: c15GoLit(v, t), Outcome: out})
+		}
+		switch {
+		case pc:
+			ctx.Tag("conv:convert-panics") // C08's business
+		case p1:
+			fail("marshal-panic", "panic")
+		case ec != nil:
+			ctx.Tag("conv:unconvertible")
+			if e1 == nil {
+				fail("no-error-for-unconvertible", string(b1))
+			}
+		default:
+			ctx.Tag("conv:converted")
+			b2, o2 := c15Marshal(ctx, c, t)
+			if (o2 == "ok") != (e1 == nil) || (e1 == nil && !bytes.Equal(b1, b2)) {
+				fail("differs-from-marshal-of-converted", string(b1)+" vs "+string(b2))
+			}
+		}
+	}
 }
